@@ -277,6 +277,7 @@ func init() {
 		Explanation: "Decided: Y1 mirror rule: in identical, identicalVar, sameVarName, sameFuncName, sameName every comparison and every call of a symmetric predicate relates corresponding parts of the two operands (exchanging x and y maps one side onto the other, single-definition locals inlined) and every condition is invariant under the exchange — a necessary condition of symmetry; " +
 			"Y2 totality: every implementer of the forked types.Type has its own case in identical and in hashFor (no reachable panic); Y3 pointer parameters of sameName are dereferenced only after an early return taken when they are nil; " +
 			"Y6 hash features ⊆ identity features per type constructor (a feature that enters the hash but that identity ignores would give identical types different hashes); Y4 Map.At/Set/Delete locate the bucket with hasher.Hash and compare keys with the same typeutil.Identical; Y5 Map.Set leaves the bucket scan early only on an identical key. " +
+			"Y6 a deleted entry (key == nil) is skipped by every scan of a bucket of typeutil.Map, it never ends the scan; Y7 a nil test on one operand of a symmetric predicate of predicates.go is accompanied by the same test on the other. " +
 			"Not decided: transitivity, hash quality, the association-list behaviour beyond these clauses.",
 		Assumptions: []string{"getter aliases of the forked go/types: ExplicitMethod = Method, NumExplicitMethods = NumMethods (confirmed by reading go/types/type.go)", "reflect pointer identity of *types.TypeName objects"},
 		Patterns:    nil,
@@ -285,6 +286,8 @@ func init() {
 			ruleMirror(c, "go/typeutil.identicalVar", 0, 1, sym, "Y1-mirror")
 			ruleMirror(c, "go/typeutil.sameVarName", 0, 1, sym, "Y1-mirror")
 			ruleMirror(c, "go/typeutil.sameFuncName", 0, 1, sym, "Y1-mirror")
+			ruleTombstoneScan(c, "Y6-tombstone-scan")
+			ruleTwoSidedNilGuard(c, "Y7-two-sided-nil-guard")
 			ruleTypeSwitchTotal(c, "go/typeutil.identical", "go/types", "Type", "Y2-total")
 			ruleTypeSwitchTotal(c, "go/typeutil.Hasher.hashFor", "go/types", "Type", "Y2-total")
 			ruleNilGuard(c, "go/typeutil.sameName", "Y3-nil-guard")
@@ -295,6 +298,8 @@ func init() {
 			c.Floor("Y6-hash-subset", 15)
 		}},
 		Mutants: []Mutant{
+			{Name: "hole-ends-bucket-scan", File: "go/typeutil/map.go", Old: "\t\tfor _, e := range m.table[m.hasher.Hash(key)] {\n\t\t\tif e.key != nil && Identical(key, e.key) {", New: "\t\tfor _, e := range m.table[m.hasher.Hash(key)] {\n\t\t\tif e.key == nil {\n\t\t\t\tbreak\n\t\t\t}\n\t\t\tif Identical(key, e.key) {"},
+			{Name: "one-sided-nil-guard", File: "go/typeutil/predicates.go", Old: "\tif v == nil || w == nil {\n\t\treturn v == w", New: "\tif v == nil {\n\t\treturn w == nil"},
 			{Name: "embedded-count-from-x", File: "go/typeutil/predicates.go", Old: "nf := y.NumEmbeddeds()", New: "nf := x.NumEmbeddeds()", Canary: true},
 			{Name: "struct-tag-same-side", File: "go/typeutil/predicates.go", Old: "cmpTags && x.Tag(i) != y.Tag(i) ||", New: "cmpTags && x.Tag(i) != x.Tag(i) ||"},
 			{Name: "basic-hashed-by-name", File: "go/typeutil/map.go", Old: "\t\treturn uint32(t.Kind())\n", New: "\t\treturn hashString(t.Name())\n", Canary: true},
@@ -318,6 +323,7 @@ func depRules(c *Ctx) {
 	ruleConstDepsPairing(c, "D11-constdeps-pairing")
 	ruleSelfDependency(c, "D12-self-dependency")
 	ruleQueuePartition(c, "D13-queue-partition")
+	ruleDepMapPerName(c, "D14-depmap-per-name")
 	c.Floor("D1-map-range", 8)
 	c.Floor("D2-order-taint", 6)
 	c.Floor("D3-stride", 1)
@@ -389,10 +395,18 @@ func init() {
 		Explanation: "Decided: R1 the only non-error exit of the read loop is nested under paren <= 0 && !ignorenl && m == mNormal (so a chunk never ends inside a string, raw string, rune, comment or open bracket as tracked by the mode machine) and the only return inside a line is the invalid-character error; R2 every line read is appended whole to buf before any exit and the chunk returned is exactly buf; R3 the input bytes are modified only to turn '#!' into '//'; R4 a line comment ends with its line; R7 the operator look-ahead states (after + - /) hand the look-ahead character back to the normal state, so a bracket or quote right after an operator is counted; " +
 			"R5 all 14 modes have an arm and a name; R6 the transition table of the literal/comment modes (opening quote, escape, terminator), the bracket counters and the set of continuation characters agree with Go's lexical structure, and a literal/comment mode returns to mNormal only on its terminator. " +
 			"R6 also: a run of stars keeps the after-a-star state, so that a comment may end with **/ (found F46); R9 inside a string or rune literal only a newline aborts the chunk, as in the Go scanner (found F47: a literal TAB was rejected). " +
+			"R10 a Readline over a bufio reader returns the bytes it read together with the error (a last line without newline arrives with io.EOF); R11 after a + or - that is not doubled the newline is ignored unconditionally. " +
 			"Not decided: lastIsKeywordIgnoresNl, interaction of +/- modes with ++/--, that tracking at byte level matches the Go scanner on every input.",
 		Assumptions: []string{"Go lexical grammar for string, rune, raw string and comment delimiters"},
-		Rules:       []func(*Ctx){ruleMultilineReader, func(c *Ctx) { c.Floor("R6-transitions", 12); c.Floor("R5-modes", 12); c.Floor("R1-exit-condition", 2) }},
+		Rules: []func(*Ctx){ruleMultilineReader, func(c *Ctx) {
+			c.Floor("R6-transitions", 12)
+			c.Floor("R5-modes", 12)
+			c.Floor("R1-exit-condition", 2)
+			ruleReadKeepsPartialLine(c, "R10-read-keeps-partial-line")
+			rulePlusMinusContinuation(c, "R11-plus-minus-continuation")
+		}},
 		Mutants: []Mutant{
+			{Name: "partial-last-line-dropped-at-eof", File: "base/readline.go", Old: "\treturn line, err\n", New: "\tif err != nil {\n\t\treturn nil, err\n\t}\n\treturn line, nil\n", Nth: 1},
 			{Name: "comment-star-run-reopens-comment", File: "base/read.go", Old: "\t\t\t\tcase '*':\n\t\t\t\t\t// still after a star: the comment may end with \"**/\"\n", New: ""},
 			{Name: "tab-inside-string-aborts-chunk", File: "base/read.go", Old: "\t\t\t\t\tif ch == '\\n' {\n\t\t\t\t\t\treturn invalidChar(i, ch, \"string\")", New: "\t\t\t\t\tif ch < ' ' {\n\t\t\t\t\t\treturn invalidChar(i, ch, \"string\")"},
 			{Name: "char-after-division-skipped", File: "base/read.go", Old: "\t\t\t\t\t\tgoto again\n", New: "\t\t\t\t\t\tif ch == 0 {\n\t\t\t\t\t\t\tgoto again\n\t\t\t\t\t\t}\n", Canary: true},
@@ -789,10 +803,16 @@ func init() {
 		Title: "Program results do not depend on semantics-neutral interpreter options",
 		Explanation: "Decided: N1 who-may-read: OptCollectDeclarations / OptCollectStatements / OptTrapPanic / OptPanicStackTrace / OptKeepUntyped are referenced only by the enumerated REPL-driver, collector, command-line and result-returning functions (CompileAst, RunExpr, DebugExpr convert a final untyped result to its default type), never by code that compiles or executes programs; " +
 			"N2 effect confinement: every statement controlled by OptDebugger only records the compiler for the debugger (a *Comp that the function never dereferences, or Env.DebugComp), and Env.DebugComp is read only by the single-step hook and the debugger package; N3 the fields of base.Globals that the declaration collector writes (PackagePath, Imports, Declarations, Statements: derived from CollectNode) are read only by the file writer and the command-line driver (one reviewed exception). " +
+			"E14f the constants of the option types (base.Options, parser.Mode) are pairwise distinct unless declared as explicit aliases (an implicit repetition landing on another option would let one option switch on another); N5 every report of a recovered panic value in afterEval uses the same format verb, with or without the stack-trace option. " +
 			"Not decided: the generics switch (a package-level mode consulted by the parser and type checker).",
 		Assumptions: []string{"option constants are referenced by name (no arithmetic on raw bit values)"},
-		Rules:       []func(*Ctx){ruleOptionConfinement, ruleCollectorState},
+		Rules: []func(*Ctx){ruleOptionConfinement, ruleCollectorState, func(c *Ctx) {
+			ruleFlagEnumInjective(c, "E14f-flag-enum", "go/parser", "Mode")
+			ruleFlagEnumInjective(c, "E14f-flag-enum", "base", "Options")
+			ruleSiblingVerbs(c, "N5-sibling-verbs")
+		}},
 		Mutants: []Mutant{
+			{Name: "stack-trace-option-changes-panic-verb", File: "fast/repl.go", Old: "g.Fprintf(g.Stderr, \"%v\\n%s\", rec, debug.Stack())", New: "g.Fprintf(g.Stderr, \"%s\\n%s\", rec, debug.Stack())"},
 			{Name: "field-lookup-uses-collected-package-name", File: "fast/selector.go", Old: "return t.FieldByName(name, c.FileComp().Path)", New: "return t.FieldByName(name, c.Globals.PackagePath)"},
 			{Name: "debugger-option-changes-compilation", File: "fast/func1ret0.go", Old: "\tif c.Globals.Options&base.OptDebugger != 0 {\n\t\tdebugC = c\n\t}", New: "\tif c.Globals.Options&base.OptDebugger != 0 {\n\t\tdebugC = c\n\t\tc.UpCost++\n\t}", Canary: true},
 			{Name: "executor-reads-trap-panic", File: "fast/code.go", Old: "\tcaller := run.CurrEnv\n\t// restore g.IsDefer", New: "\tif run.Options&base.OptTrapPanic != 0 {\n\t\trun.Signals.Sync = base.SigNone\n\t}\n\tcaller := run.CurrEnv\n\t// restore g.IsDefer", Canary: true},
@@ -803,10 +823,17 @@ func init() {
 		ID:    "C19",
 		Title: "Debugging is transparent and step/next/finish/continue stop where documented",
 		Explanation: "Decided: B1 table agreement: with the single stop test `env.CallDepth < run.DebugDepth` of singleStep, the depths requested by the commands (step: MaxInt, next: CallDepth+1, finish: CallDepth, continue: 0) give exactly the four documented behaviours (any depth / same or shallower / shallower / breakpoints only) — the checker derives the class from the operator and the offsets; singleStep executes exactly one statement per call and reaches the debugger hook under the stop test; applyDebugOp turns single-stepping on iff the depth is > 0 and records it; a function frame's CallDepth is its caller's + 1; a DebugOp returned without asking the user (synthetic statements) keeps Depth = run.DebugDepth; B2 a body that falls off its end terminates while single-stepping (the end-of-code sentinel signals the return only when no signal at all is pending, so singleStep raises SigReturn at the last index of env.Code); N4 every compiler recorded in a frame for the debugger (Env.DebugComp, or the debugComp argument of the ~600 newEnv4Func call sites) is a variable that is nil unless assigned under a test of exactly base.OptDebugger; X5 (shared with C07) a SigDefer raised by a stepped defer statement is forwarded to a region that installs the deferred function; " +
+			"F1s each ExecFlags setter raises and lowers exactly its own bit (a setter that clears the debug flag silences stepping); P1p Code.List and Code.DebugPos, indexed in parallel, are assigned together and under the same test (the position table must not drift from the statements). " +
 			"N2 confinement of the debugger's state (shared with C18): nothing the compiler or executor computes depends on OptDebugger or Env.DebugComp. Not decided: the stop sequence of a concrete run.",
 		Assumptions: []string{"frames are pushed and popped as checked by C06 (new/free pairing)"},
-		Rules:       []func(*Ctx){ruleDebuggerTable, ruleOptionConfinement, ruleDebugTermination, ruleDebugCompRecorded, func(c *Ctx) { ruleDeferProtocol(c, "X5-defer-protocol") }},
+		Rules: []func(*Ctx){ruleDebuggerTable, ruleOptionConfinement, ruleDebugTermination, ruleDebugCompRecorded, func(c *Ctx) {
+			ruleDeferProtocol(c, "X5-defer-protocol")
+			ruleFlagSetters(c, "F1s-flag-setters", "fast", "ExecFlags", 3)
+			ruleParallelFields(c, "P1p-parallel-fields", "fast", "Code", "List", "DebugPos")
+		}},
 		Mutants: []Mutant{
+			{Name: "start-defer-setter-clears-debug-flag", File: "fast/global.go", Old: "\t\t(*ef) &^= EFStartDefer\n", New: "\t\t(*ef) &= EFDefer\n"},
+			{Name: "truncate-keeps-stale-positions", File: "fast/code.go", Old: "\tif len(code.DebugPos) > n {\n\t\tcode.DebugPos = code.DebugPos[0:n]\n\t}\n", New: ""},
 			{Name: "skipped-statement-narrows-depth", File: "fast/debug/api.go", Old: "return DebugOp{Depth: env.Run.DebugDepth}", New: "return DebugOp{Depth: env.CallDepth}"},
 			{Name: "func0ret0-records-compiler-under-other-flag", File: "fast/func0ret0.go", Old: "if c.Globals.Options&base.OptDebugger != 0 {", New: "if c.Globals.Options&base.OptDebugDebugger != 0 {"},
 			{Name: "stepped-defer-not-installed", File: "fast/code.go", Old: "if run.Signals.IsEmpty() || sig == base.SigDefer {\n\t\t\tgoto again", New: "if run.Signals.IsEmpty() {\n\t\t\tgoto again"},
